@@ -14,6 +14,7 @@ From Coq Require Import ZArith List Bool String.
 From V Require Import Base.Int Base.IO.
 From V Require Import Model.TzParser Model.TzRule Model.TzLookup.
 From V Require Model.Date Model.Time Model.DateTime Model.C16.
+From V Require Model.Scan Model.Show Model.FromStr Model.C02 Model.TimeDelta.
 Import ListNotations.
 Open Scope Z_scope.
 
@@ -139,6 +140,81 @@ Definition op_rt (z : timezone) (n : DateTime.ndt) : val :=
                end in
      Val (VTup [VInt wts; r])).
 
+(** ** Conversions into and out of DateTime<Local> (src/datetime/mod.rs), op lz.conv *)
+(* DateTime::with_timezone(&Local):  tz.from_utc_datetime(&self.datetime) *)
+Definition with_timezone_local (z : timezone) (a : DateTime.dtz) : R DateTime.dtz :=
+  from_utc_datetime z (DateTime.dz_utc a).
+(* impl From<DateTime<Utc>> for DateTime<Local>:  src.with_timezone(&Local) *)
+Definition local_from_utc (z : timezone) (src : DateTime.dtz) : R DateTime.dtz := with_timezone_local z src.
+(* impl From<DateTime<FixedOffset>> for DateTime<Local>:  src.with_timezone(&Local) *)
+Definition local_from_fixed (z : timezone) (src : DateTime.dtz) : R DateTime.dtz := with_timezone_local z src.
+(* impl From<DateTime<Local>> for DateTime<Utc>:  src.with_timezone(&Utc) *)
+Definition utc_from_local (src : DateTime.dtz) : DateTime.dtz := DateTime.with_timezone src 0.
+(* impl From<DateTime<Local>> for DateTime<FixedOffset>:  src.with_timezone(&src.offset().fix()) *)
+Definition fixed_from_local (src : DateTime.dtz) : DateTime.dtz := DateTime.with_timezone src (DateTime.dz_off src).
+(* impl From<SystemTime> for DateTime<Local>:  DateTime::<Utc>::from(t).with_timezone(&Local)
+   (the SystemTime as the triple duration_since(UNIX_EPOCH) returns, Model/C02.v) *)
+Definition local_from_systime (z : timezone) (before : bool) (dsecs dnanos : Z) : R DateTime.dtz :=
+  let* u := C02.dt_from_systime before dsecs dnanos in with_timezone_local z u.
+(* impl FromStr for DateTime<Local>:  s.parse::<DateTime<FixedOffset>>().map(|dt| dt.with_timezone(&Local)) *)
+Definition local_from_str (z : timezone) (s : bytes) : Scan.PR DateTime.dtz :=
+  let* p := FromStr.datetime_fixed_from_str s in
+  match p with
+  | Scan.POk dt => let* l := with_timezone_local z dt in Val (Scan.POk l)
+  | Scan.PErr e => Val (Scan.PErr e)
+  end.
+
+(* the harness' constructions: the fixed offset (whole minutes) the DateTime<FixedOffset> source carries,
+   (offset, timestamp) of a result *)
+Definition conv_k (x : Z) : Z := (x mod 2879 - 1439) * 60.
+Definition pair_of (d : DateTime.dtz) : R val :=
+  let* t := DateTime.dt_timestamp (DateTime.dz_utc d) in Val (VTup [VInt (DateTime.dz_off d); VInt t]).
+Definition op_conv (z : timezone) (n : DateTime.ndt) : val :=
+  val_of_R (fun v => v)
+    (let* x := DateTime.dt_timestamp n in
+     let u := DateTime.mk_dtz n 0 in
+     let f := DateTime.with_timezone u (conv_k x) in
+     let* l1 := local_from_utc z u in let* p1 := pair_of l1 in
+     let* l2 := local_from_fixed z f in let* p2 := pair_of l2 in
+     let* p3 := pair_of (utc_from_local l1) in
+     let* p4 := pair_of (fixed_from_local l1) in
+     let* s := Show.to_text (Show.dtz_debug false [] f) in
+     let* r5 := local_from_str z s in
+     let* p5 := match r5 with Scan.POk l => pair_of l | Scan.PErr e => Val (VErr (Scan.perr_name e)) end in
+     let* l6 := local_from_systime z (x <? 0) (Z.abs x) 0 in let* p6 := pair_of l6 in
+     Val (VTup [p1; p2; p3; p4; p5; p6])).
+
+(** ** DateTime<Local> += / -= TimeDelta and core::time::Duration (src/datetime/mod.rs), op lz.asg *)
+(* impl AddAssign<TimeDelta> for DateTime<Tz>:
+     let datetime = self.datetime.checked_add_signed(rhs).expect("`DateTime + TimeDelta` overflowed");
+     let tz = self.timezone();  *self = tz.from_utc_datetime(&datetime);
+   for Tz = Local the zone is resolved again at the new instant *)
+Definition local_add_assign (z : timezone) (a : DateTime.dtz) (rhs : TimeDelta.td) : R DateTime.dtz :=
+  let* datetime := unwrap_r (DateTime.ndt_checked_add_signed (DateTime.dz_utc a) rhs) in
+  from_utc_datetime z datetime.
+(* impl SubAssign<TimeDelta> for DateTime<Tz>: the same with checked_sub_signed *)
+Definition local_sub_assign (z : timezone) (a : DateTime.dtz) (rhs : TimeDelta.td) : R DateTime.dtz :=
+  let* datetime := unwrap_r (DateTime.ndt_checked_sub_signed (DateTime.dz_utc a) rhs) in
+  from_utc_datetime z datetime.
+(* impl AddAssign<Duration> / SubAssign<Duration>:  let rhs = TimeDelta::from_std(rhs).expect(..); *self += rhs *)
+Definition local_add_assign_std (z : timezone) (a : DateTime.dtz) (dsecs dnanos : Z) : R DateTime.dtz :=
+  let* rhs := unwrap (TimeDelta.from_std dsecs dnanos) in local_add_assign z a rhs.
+Definition local_sub_assign_std (z : timezone) (a : DateTime.dtz) (dsecs dnanos : Z) : R DateTime.dtz :=
+  let* rhs := unwrap (TimeDelta.from_std dsecs dnanos) in local_sub_assign z a rhs.
+
+(* the observation: Local.from_utc_datetime(&n), then the four assignments with TimeDelta::seconds(d) /
+   Duration::from_secs(|d|), each under its own catch_unwind: (offset, timestamp) or PANIC *)
+Definition ASG_MAX := 10000000000000.
+Definition asg_out (r : R DateTime.dtz) : val := val_of_R (fun v => v) (let* a := r in pair_of a).
+Definition op_asg (d : Z) (z : timezone) (n : DateTime.ndt) : val :=
+  match from_utc_datetime z n with
+  | Val a =>
+      VTup [asg_out (local_add_assign z a (TimeDelta.mk_td d 0)); asg_out (local_sub_assign z a (TimeDelta.mk_td d 0));
+            asg_out (local_add_assign_std z a (Z.abs d) 0); asg_out (local_sub_assign_std z a (Z.abs d) 0)]
+  | Panic => VPanic
+  | OutOfFuel => VFuel
+  end.
+
 Definition batch (src xs : val) (f : timezone -> DateTime.ndt -> val) : val :=
   match zone_of_src src, arg_list xs with
   | Some z, Some ns =>
@@ -167,6 +243,7 @@ Definition run (op : bytes) (args : list val) : val :=
       else if op_is op "lz.loc" || op_is op "lz.uloc" then batch src xs op_loc
       else if op_is op "lz.sel" || op_is op "lz.usel" then batch src xs op_sel
       else if op_is op "lz.rt" || op_is op "lz.urt" then batch src xs op_rt
+      else if op_is op "lz.conv" then match src with VStr _ => batch src xs op_conv | _ => VBad end
       else VErr B"NOOP"
   | [src; _; VInt dir; xs] =>
       if op_is op "lz.env" then
@@ -182,7 +259,10 @@ Definition run (op : bytes) (args : list val) : val :=
             else VBad
         | _, _ => VBad
         end
+      else if op_is op "lz.asg" then
+        if (- ASG_MAX <=? dir) && (dir <=? ASG_MAX)
+        then match src with VStr _ => batch src xs (op_asg dir) | _ => VBad end else VBad
       else VErr B"NOOP"
   | _ => if op_is op "lz.at" || op_is op "lz.uat" || op_is op "lz.loc" || op_is op "lz.uloc" || op_is op "lz.sel" || op_is op "lz.usel"
-            || op_is op "lz.rt" || op_is op "lz.urt" || op_is op "lz.env" then VBad else VErr B"NOOP"
+            || op_is op "lz.rt" || op_is op "lz.urt" || op_is op "lz.env" || op_is op "lz.conv" || op_is op "lz.asg" then VBad else VErr B"NOOP"
   end.
